@@ -38,12 +38,21 @@ theorem Ext.trans {D D1 D2 : List (Nat × Nat × Option (List UInt8))} {o o1 : N
   · exact b1 d h
   · have := b2 d h; omega
 
+/-- a diagnostic of scan.c: it names the current file and the line — as `nextchar` counts, shifted
+by the directives in force — of some byte `o` at or behind the position of `p` -/
+def ScanDiag (file0 : List UInt8) (text : List UInt8) (p : PS) (e : PErr) : Prop :=
+  ∃ o, off p.s ≤ o ∧ o ≤ text.length ∧ e.file = curFile file0 (e.dirs.map toDir) ∧
+    (e.line : Int) = (locAt text o).line + shiftOf text (e.dirs.map toDir) ∧
+    ∀ d ∈ e.dirs.map toDir, d.endOff ≤ o
+
 /-- a diagnostic is fine: the directives in force when it was raised extend those of `p` behind
-`p`'s position, and the token it points at (if any) was scanned under them -/
+`p`'s position, the token it points at (if any) was scanned under them, and a diagnostic of
+scan.c names the line of a byte behind `p` -/
 def ErrGood (file0 : List UInt8) (text : List UInt8) (p : PS) (e : PErr) : Prop :=
   Ext p.dirs (off p.s) e.dirs ∧ (e.dirs.map toDir).Pairwise (fun a b => a.endOff < b.endOff) ∧
-  ∀ t, e.tok = some t → Scanned file0 text (e.dirs.map toDir) t ∧ off p.s ≤ t.off ∧
-    e.file = t.file ∧ e.line = t.line ∧ e.col = t.col
+  (∀ t, e.tok = some t → Scanned file0 text (e.dirs.map toDir) t ∧ off p.s ≤ t.off ∧
+    e.file = t.file ∧ e.line = t.line ∧ e.col = t.col) ∧
+  (e.tok = none → ∀ k, e.kind = .scan k → ScanDiag file0 text p e)
 
 def Res (file0 : List UInt8) (text : List UInt8) (p : PS) {α : Type} (okP : α → Prop) :
     Except PErr α → Prop
@@ -78,11 +87,14 @@ theorem Reach.trans {p0 p p' : PS} {t t' : PTok} (h : Reach file0 text p0 t p)
 
 theorem ErrGood.chain {p0 p : PS} {e : PErr} (he : ErrGood file0 text p e)
     (hx : Ext p0.dirs (off p0.s) p.dirs) (hle : off p0.s ≤ off p.s) : ErrGood file0 text p0 e := by
-  obtain ⟨h1, hs, h2⟩ := he
-  refine ⟨hx.trans h1 hle, hs, ?_⟩
-  intro t ht
-  obtain ⟨a, b, c⟩ := h2 t ht
-  exact ⟨a, Nat.le_trans hle b, c⟩
+  obtain ⟨h1, hs, h2, h3⟩ := he
+  refine ⟨hx.trans h1 hle, hs, ?_, ?_⟩
+  · intro t ht
+    obtain ⟨a, b, c⟩ := h2 t ht
+    exact ⟨a, Nat.le_trans hle b, c⟩
+  · intro hn k hk
+    obtain ⟨o, a, b⟩ := h3 hn k hk
+    exact ⟨o, Nat.le_trans hle a, b⟩
 
 theorem ErrGood.of_reach {p0 p : PS} {t : PTok} {e : PErr} (he : ErrGood file0 text p e)
     (h : Reach file0 text p0 t p) : ErrGood file0 text p0 e :=
@@ -93,7 +105,7 @@ theorem errTok_good' {p0 p : PS} {t : PTok} (htok : Scanned file0 text (dirsOf p
     (hs : (dirsOf p0).Pairwise (fun a b => a.endOff < b.endOff)) (k : PErrKind) :
     ErrGood file0 text p0 (errTok p t k) := by
   refine ⟨by show Ext p0.dirs _ p.dirs; rw [hd]; exact Ext.refl _ _,
-    by show (p.dirs.map toDir).Pairwise _; rw [hd]; exact hs, ?_⟩
+    by show (p.dirs.map toDir).Pairwise _; rw [hd]; exact hs, ?_, fun hn => by cases hn⟩
   intro t' ht'
   have : t' = t := by
     have : some t = some t' := ht'
@@ -114,7 +126,9 @@ theorem scanP_ok {p : PS} (h : PInv file0 text p) :
   unfold scanP
   cases hs : scan p.s with
   | error e =>
-    exact ⟨Ext.refl _ _, h.sorted, fun t ht => by cases ht⟩
+    refine ⟨Ext.refl _ _, h.sorted, (fun t ht => by cases ht), fun _ k _ => ?_⟩
+    obtain ⟨o, b1, b2, b3⟩ := scan_err h.inv hs
+    exact ⟨o, b1, b2, h.file, b3, fun d hd => Nat.le_trans (h.bound d hd) b1⟩
   | ok r =>
     obtain ⟨t, s'⟩ := r
     obtain ⟨a1, a2, a3, a4, a5, a6, a7⟩ := scan_ok h.inv hs
@@ -408,7 +422,7 @@ theorem nextinto_ok : ∀ (n : Nat) (p : PS), PInv file0 text p →
     Res file0 text p (fun r : PTok × PS => NextOK file0 text p r.1 r.2) (nextinto n p) := by
   intro n
   induction n with
-  | zero => intro p h; exact ⟨Ext.refl _ _, h.sorted, fun t ht => by cases ht⟩
+  | zero => intro p h; exact ⟨Ext.refl _ _, h.sorted, (fun t ht => by cases ht), fun _ k hk => by cases hk⟩
   | succ n ih =>
     intro p h
     unfold nextinto
@@ -498,7 +512,7 @@ theorem next_ok (nl : Bool) : ∀ (n : Nat) (p : PS), PInv file0 text p →
     Res file0 text p (fun r : PTok × PS => NextOK file0 text p r.1 r.2) (next nl n p) := by
   intro n
   induction n with
-  | zero => intro p h; exact ⟨Ext.refl _ _, h.sorted, fun t ht => by cases ht⟩
+  | zero => intro p h; exact ⟨Ext.refl _ _, h.sorted, (fun t ht => by cases ht), fun _ k hk => by cases hk⟩
   | succ n ih =>
     intro p h
     unfold next
@@ -564,16 +578,26 @@ theorem runLoop_ok (nl : Bool) : ∀ (n : Nat) (p : PS), PInv file0 text p →
     (∀ e, (runLoop nl n p).err = some e → ∀ t, e.tok = some t →
       SpecOK file0 text ((runLoop nl n p).dirs.map toDir) t ∧
       e.file = t.file ∧ e.line = t.line ∧ e.col = t.col ∧ off p.s ≤ t.off ∧
-      ∀ t' ∈ (runLoop nl n p).toks, t'.off < t.off) := by
+      ∀ t' ∈ (runLoop nl n p).toks, t'.off < t.off) ∧
+    (∀ e, (runLoop nl n p).err = some e → e.tok = none → ∀ k, e.kind = .scan k →
+      ∃ o, off p.s ≤ o ∧ o ≤ text.length ∧
+        e.file = curFile file0 ((runLoop nl n p).dirs.map toDir) ∧
+        (e.line : Int) = (locAt text o).line + shiftOf text ((runLoop nl n p).dirs.map toDir) ∧
+        (∀ d ∈ (runLoop nl n p).dirs.map toDir, d.endOff ≤ o) ∧
+        ∀ t' ∈ (runLoop nl n p).toks, t'.off < o) := by
   intro n
   induction n with
   | zero =>
     intro p h
-    refine ⟨Ext.refl _ _, h.sorted, by simp [runLoop], by simp [runLoop], ?_⟩
-    intro e he t ht
-    simp only [runLoop, Option.some.injEq] at he
-    subst he
-    cases ht
+    refine ⟨Ext.refl _ _, h.sorted, by simp [runLoop], by simp [runLoop], ?_, ?_⟩
+    · intro e he t ht
+      simp only [runLoop, Option.some.injEq] at he
+      subst he
+      cases ht
+    · intro e he _ k hk
+      simp only [runLoop, Option.some.injEq] at he
+      subst he
+      cases hk
   | succ n ih =>
     intro p h
     have hn := next_ok (file0 := file0) (text := text) nl (p.s.inp.length + 2) p h
@@ -581,29 +605,34 @@ theorem runLoop_ok (nl : Bool) : ∀ (n : Nat) (p : PS), PInv file0 text p →
     cases hnp : next nl (p.s.inp.length + 2) p with
     | error e =>
       rw [hnp] at hn
-      obtain ⟨hx, hsrt, ht⟩ := (hn : ErrGood file0 text p e)
-      refine ⟨hx, hsrt, by simp, by simp, ?_⟩
-      intro e' he' t htk
-      simp only [Option.some.injEq] at he'
-      subst he'
-      obtain ⟨a, b, c⟩ := ht t htk
-      exact ⟨a.specOK, c.1, c.2.1, c.2.2, b, by simp⟩
+      obtain ⟨hx, hsrt, ht, hsd⟩ := (hn : ErrGood file0 text p e)
+      refine ⟨hx, hsrt, by simp, by simp, ?_, ?_⟩
+      · intro e' he' t htk
+        simp only [Option.some.injEq] at he'
+        subst he'
+        obtain ⟨a, b, c⟩ := ht t htk
+        exact ⟨a.specOK, c.1, c.2.1, c.2.2, b, by simp⟩
+      · intro e' he' hnone k hk
+        simp only [Option.some.injEq] at he'
+        subst he'
+        obtain ⟨o, a, b, c, d, f⟩ := hsd hnone k hk
+        exact ⟨o, a, b, c, d, f, by simp⟩
     | ok r =>
       obtain ⟨t, p1⟩ := r
       rw [hnp] at hn
       have hr : NextOK file0 text p t p1 := hn
       simp only []
       split
-      · refine ⟨hr.ext, hr.inv.sorted, ?_, by simp, by simp⟩
+      · refine ⟨hr.ext, hr.inv.sorted, ?_, by simp, by simp, by simp⟩
         intro t' ht'
         simp only [List.mem_singleton] at ht'
         subst ht'
         exact ⟨hr.ge, hr.tok.specOK⟩
       · rename_i hk
         have hlt := hr.lt hk
-        obtain ⟨i1, i0, i2, i3, i4⟩ := ih p1 hr.inv
+        obtain ⟨i1, i0, i2, i3, i4, i5⟩ := ih p1 hr.inv
         simp only []
-        refine ⟨hr.ext.trans i1 hr.mono, i0, ?_, ?_, ?_⟩
+        refine ⟨hr.ext.trans i1 hr.mono, i0, ?_, ?_, ?_, ?_⟩
         · intro t' ht'
           rcases List.mem_cons.mp ht' with e | e
           · subst e
@@ -617,6 +646,14 @@ theorem runLoop_ok (nl : Bool) : ∀ (n : Nat) (p : PS), PInv file0 text p →
         · intro e he t2 ht2
           obtain ⟨c1, c2, c3, c4, c5, c6⟩ := i4 e he t2 ht2
           refine ⟨c1, c2, c3, c4, Nat.le_trans hr.mono c5, ?_⟩
+          intro t' ht'
+          rcases List.mem_cons.mp ht' with e' | e'
+          · subst e'
+            omega
+          · exact c6 t' e'
+        · intro e he hnone k hk
+          obtain ⟨o, c1, c2, c3, c4, c5, c6⟩ := i5 e he hnone k hk
+          refine ⟨o, Nat.le_trans hr.mono c1, c2, c3, c4, c5, ?_⟩
           intro t' ht'
           rcases List.mem_cons.mp ht' with e' | e'
           · subst e'
